@@ -126,12 +126,16 @@ func checkC17(c *c17Case) (msg string, nontrivial bool, labels []string) {
 		kvql.DefaultErrorPadding = 3
 		pad = 3
 	}
+	// token starts come from the reference tokeniser (independent of the
+	// engine's own offsets); the engine lexer is consulted only for texts
+	// whose tokenisation the documentation does not fix (a bare ^ or ~)
 	starts := map[int]bool{0: true}
-	for _, tk := range kvql.NewLexer(q).Split() {
+	ref, refOK := lib.RefLex(q)
+	for _, tk := range ref {
 		starts[tk.Pos] = true
 	}
-	if ref, ok := lib.RefLex(q); ok {
-		for _, tk := range ref {
+	if !refOK {
+		for _, tk := range kvql.NewLexer(q).Split() {
 			starts[tk.Pos] = true
 		}
 	}
@@ -245,6 +249,9 @@ func TestC17Corrupt(t *testing.T) {
 		q := genC17Stmt(rt, kind, pairs)
 		other := lib.GenAnyStmt(rt, kind, pairs, true).Render()
 		cq, edit := lib.Corrupt(rt, q, other)
+		if rapid.Bool().Draw(rt, "widenSpaces") {
+			cq = widenSpaces(rt, cq)
+		}
 		cq = strings.Repeat(" ", rapid.SampledFrom([]int{0, 0, 1, 3, 10, 50}).Draw(rt, "lead")) + cq + strings.Repeat(" ", rapid.SampledFrom([]int{0, 0, 1, 5, 50}).Draw(rt, "trail"))
 		c17Run(rt, &c17Case{Query: cq, Pairs: pairs, PadMode: rapid.IntRange(0, 3).Draw(rt, "padmode")}, "edit="+edit)
 	})
@@ -257,6 +264,9 @@ func TestC17RunTime(t *testing.T) {
 		pairs := lib.GenHostileStore(rt)
 		kind := lib.GenKind(rt)
 		q := genC17Stmt(rt, kind, pairs)
+		if rapid.Bool().Draw(rt, "widenSpaces") {
+			q = widenSpaces(rt, q)
+		}
 		q = strings.Repeat(" ", rapid.SampledFrom([]int{0, 0, 2, 30}).Draw(rt, "lead")) + q + strings.Repeat(" ", rapid.SampledFrom([]int{0, 0, 4}).Draw(rt, "trail"))
 		c17Run(rt, &c17Case{Query: q, Pairs: pairs, PadMode: rapid.IntRange(0, 3).Draw(rt, "padmode")}, "runtime-leg")
 	})
@@ -274,7 +284,35 @@ func TestC17Typed(t *testing.T) {
 			return
 		}
 		q := mut.Render()
+		if rapid.Bool().Draw(rt, "widenSpaces") {
+			q = widenSpaces(rt, q)
+		}
 		q = strings.Repeat(" ", rapid.SampledFrom([]int{0, 0, 2, 30}).Draw(rt, "lead")) + q
 		c17Run(rt, &c17Case{Query: q, Pairs: pairs, PadMode: rapid.IntRange(0, 3).Draw(rt, "padmode")}, "fault="+fault)
 	})
+}
+
+// widenSpaces replaces some single blanks between tokens (never inside a
+// quoted literal) by runs of two to four blanks: spacing between tokens is
+// irrelevant to the tokens, so positions must still be token starts.
+func widenSpaces(rt *rapid.T, q string) string {
+	var sb strings.Builder
+	quote := byte(0)
+	for i := 0; i < len(q); i++ {
+		ch := q[i]
+		switch {
+		case quote != 0:
+			if ch == quote {
+				quote = 0
+			}
+		case ch == '\'' || ch == '"' || ch == '`':
+			quote = ch
+		case ch == ' ':
+			if rapid.IntRange(0, 3).Draw(rt, "widen") == 0 {
+				sb.WriteString(strings.Repeat(" ", rapid.IntRange(1, 3).Draw(rt, "extraBlanks")))
+			}
+		}
+		sb.WriteByte(ch)
+	}
+	return sb.String()
 }
